@@ -172,10 +172,29 @@ def _decode_each(code, v, want_all=True):
 
 
 # ------------------------------------------------------------------ C02
+def _get_code(args, v):
+    """compiled program; optionally re-serialized by R-ASM (denser prefix / table shapes than
+    compilers emit) or the encoding of a hand-built CodeData (denser jump graphs)"""
+    if args.get("spec") is not None:
+        import ops_build
+        try:
+            code = ops_build.build_code_data(args["spec"])[0].to_code()
+        except Exception as e:
+            raise Reject("hand-built spec does not encode (C03's business): %s" % exc_sig(e))
+        v.features["input_hand_built_encoding"] += 1
+        return code
+    code = compile_case(args["case"])
+    if args.get("recipe"):
+        import ops_build
+        code = ops_build.make_variant(code, args["recipe"])
+        v.features["input_rasm_variant"] += 1
+    return code
+
+
 @op("c02")
 def op_c02(args):
-    code = compile_case(args["case"])
     v = Verdict()
+    code = _get_code(args, v)
     _self_check(code)
     _program_features(code, v)
     L = lib()
@@ -257,8 +276,9 @@ def op_c02(args):
 # ------------------------------------------------------------------ C13
 @op("c13")
 def op_c13(args):
-    code = compile_case(args["case"])
-    return c13_check(code)
+    v = Verdict()
+    code = _get_code(args, v)
+    return c13_check(code, v)
 
 
 def c13_check(code, v=None):
